@@ -1665,7 +1665,13 @@ class FlowIR(object):
                     'no': False,
                 }[s.lower()]
 
-            for key, convert in [ ('replicate', int), ('aggregate', to_bool)]:
+            def to_replicas(s):
+                # VV: int(2.5) silently drops the fraction and int(True) is 1: neither is a number of replicas
+                if isinstance(s, bool) or (isinstance(s, float) and s.is_integer() is False):
+                    raise ValueError("%r is not an integer" % (s,))
+                return int(s)
+
+            for key, convert in [ ('replicate', to_replicas), ('aggregate', to_bool)]:
                 label = '%s.workflowAttributes.%s' % (ref, key)
 
                 try:
@@ -4211,6 +4217,9 @@ class FlowIR(object):
         def convert(value, expected_type, label):
             if isinstance(value, string_types + (int, bool,)):
                 try:
+                    if isinstance(value, bool) and expected_type in (int, float, optional_int):
+                        # VV: bool is a subclass of int; `numberProcesses: true` is a wrongly typed option, not 1
+                        raise TypeError("a boolean is not a number")
                     value = expected_type(value)
                 except:
                     if ignore_convert_errors:
